@@ -76,7 +76,13 @@ def leg_design(run, thorough):
 
 
 def leg_generated(run, thorough):
-    cfg = "MC_Loader_gen5" if thorough else "MC_Loader_gen4"
+    ev = leg_generated_cfg(run, thorough, "MC_Loader_gen5" if thorough else "MC_Loader_gen4", True, "g")
+    # a second universe: a reference with two prefix + unit readings (d- / da-, am / m, `dam`)
+    ev += leg_generated_cfg(run, thorough, "MC_Loader_amb", False, "a")
+    return ev
+
+
+def leg_generated_cfg(run, thorough, cfg, with_gate, pfx):
     # (no -coverage here: TLC's cost accounting of the recursive operators exhausts the heap; the vacuity gate
     # below looks at what the behaviours did instead)
     r = vlib.tlc("MC_Loader", cfg, workers=8 if thorough else 6, timeout=3000, tag="c12g", xmx="24g" if thorough else "8g")
@@ -110,10 +116,11 @@ def leg_generated(run, thorough):
         "quantity_loaded": sum(1 for db in dbs if db["quants"]),
         "doc_conflict": sum(1 for db in dbs if any(e["k"] == "docconflict" for e in db["errors"])),
     }
-    empty = [k for k, v in gate.items() if v == 0]
+    empty = [k for k, v in gate.items() if v == 0] if with_gate else []
     if empty:
         raise vlib.ToolError("vacuity gate: the generated behaviours never show: %s" % empty)
-    run.note("vacuity_gate", gate)
+    if with_gate:
+        run.note("vacuity_gate", gate)
     keys = sorted(groups)
     jobs = []
     for gi, key in enumerate(keys):
@@ -122,7 +129,7 @@ def leg_generated(run, thorough):
                      "cases": [[[idx[i] for i in f] for f in c] for c in groups[key]]})
     log("[C12] G: %d sets, %d orders x splits, %d model databases (%d ambiguous-reading sets where the fixed point fails)" % (
         len(keys), len(cases), len(dbs), ambig))
-    res = lk.run_load("gen", jobs, shards=12 if thorough else 8, tag="c12g")
+    res = lk.run_load("gen", jobs, shards=12 if thorough else 8, tag="c12g" + pfx)
     events = []
     ndrift = nsilent = nloads = 0
     cyc_sets = err_sets = 0
@@ -133,17 +140,17 @@ def leg_generated(run, thorough):
         if "crash" in rr:
             run.violation({"engine": "gen", "kind": "crash", "crash": rr["crash"], "texts": items, "cases": job["cases"][:50]},
                           "loading terminates with a database, whatever the order", {k: rr.get(k) for k in ("crash", "msg", "signal")}, "gen")
-            events.append({"ev": "crash", "set": "g%d" % gi, "loads": len(job["cases"]), "digest": []})
+            events.append({"ev": "crash", "set": "%s%d" % (pfx, gi), "loads": len(job["cases"]), "digest": []})
             continue
         for cr in rr["crashes"][:3]:
             run.violation({"engine": "gen", "kind": "panic", "texts": items, "cases": [cr["files"]], "msg": cr.get("msg")},
                           "loading terminates with a database, whatever the order", cr, "gen")
         for g in rr["groups"]:
-            events.append({"ev": "loads", "set": "g%d" % gi, "loads": g["loads"], "digest": g["digest"]})
+            events.append({"ev": "loads", "set": "%s%d" % (pfx, gi), "loads": g["loads"], "digest": g["digest"]})
         if rr["dump"] is None:
             continue        # every order panicked (reported above): there is no database to compare
         if len(key) > 1:
-            run.nontrivial("g:" + ",".join(map(str, key)))
+            run.nontrivial(pfx + ":" + ",".join(map(str, key)))
         if rr["diffs"]:
             d = rr["diffs"][0]
             run.violation({"engine": "gen", "kind": "order-dependent", "texts": items, "cases": [job["cases"][0], d.get("files")],
@@ -168,7 +175,7 @@ def leg_generated(run, thorough):
             ndrift += 1
             if ndrift <= 5:
                 run.drift_note("Loader", "set %s: %s" % ([t.strip() for t in items], d[:300]))
-    run.note("generated_sets", {"sets": len(keys), "loads": nloads, "model_silent": nsilent, "drift": ndrift,
+    run.note("generated_sets_" + cfg, {"sets": len(keys), "loads": nloads, "model_silent": nsilent, "drift": ndrift,
                                 "sets_with_load_errors": err_sets, "sets_with_cycle_reports": cyc_sets,
                                 "ambiguous_reading_sets_failing_fixed_point": ambig})
     mid = keys[len(keys) // 2]
